@@ -415,13 +415,40 @@ def long_streams(n):
     return [w[:n] for w in out]
 
 
+def boundary_streams():
+    """Stream lengths around powers of two, ending inside an event, inside tolerated silence, and in silence;
+    silence runs around 128 / 256 inside an event."""
+    out = []
+    for n in (127, 128, 129, 255, 256, 257, 511, 512, 513, 1023, 1024, 1025):
+        out.append([True] * n)
+        out.append(([False] * 3 + [True] * 9) * (n // 12 + 1))
+        out.append(([True] * 5 + [False] * 2) * (n // 7 + 1))
+        out[-2] = out[-2][:n]
+        out[-1] = out[-1][:n]
+        out.append(([False] * 2 + [True] * (n - 2)))
+    for run in (127, 128, 129, 140, 255, 256, 257):
+        out.append([False] + [True] * 5 + [False] * run + [True] * 5 + [False] * run + [True] * 3)
+        out.append([True] * 3 + [False] * (run + 1) + [True] * 3)
+    return out
+
+
+def boundary_tuples():
+    out = []
+    for (mn, mx, ms) in ((1, 400, 150), (1, 300, 129), (5, 1030, 257), (1, 130, 128), (3, 64, 10), (1, 257, 0), (2, 128, 127)):
+        for im, is_ in ((0, 0), (2, 1)):
+            for mode in tm.MODES:
+                out.append((mn, mx, ms, im, is_, mode))
+    return out
+
+
 def work_long(task):
     """Large-scale rows (directed, not exhaustive): long streams x large max_length tuples."""
     oracle, tuples, n = task
     cov = {"evaluations": 0, "distinct_nontrivial": 0, "traces_validated_against_impl": 0, "large_rows_not_exhaustive": 0,
            "samples": []}
     viol = []
-    streams = long_streams(n)
+    streams = long_streams(n) if n > 0 else boundary_streams()
+    n = max(len(w) for w in streams)
     global _FR
     if len(_FR) < n + 1:
         _FR = [((i, False), (i, True)) for i in range(n + 1)]
@@ -434,6 +461,12 @@ def work_long(task):
                     bits |= 1 << i
             memo = None
             msg, nontrivial, se = judge(oracle, params, nn, bits, memo, 0)
+            if msg is None:
+                # the list mode must deliver the same tokens on long streams too
+                lst = [(a, b) for _, a, b in run_list(params, frames_of(nn, bits))]
+                if lst != se:
+                    msg = "list mode gives %d tokens (last %r), generator mode %d tokens (last %r)" % (
+                        len(lst), lst[-1:] , len(se), se[-1:])
             cov["evaluations"] += 1
             cov["large_rows_not_exhaustive"] += 1
             cov["traces_validated_against_impl"] += 1
@@ -596,6 +629,9 @@ def run(prop, tier):
     lt = [t for t in long_tuples() if prop != "C04" or t[3] <= 1]
     for c in _interleave(lt, common.NPROC * 2):
         tasks.append(("long", (prop, c, 300 if tier == "quick" else 1000)))
+    bt = [t for t in boundary_tuples() if prop != "C04" or t[3] <= 1]
+    for c in _interleave(bt, common.NPROC * 2):
+        tasks.append(("long", (prop, c, 0)))
     for part in common.pmap(_dispatch, tasks):
         rep.merge(part)
     rep.assumptions += [
